@@ -8,6 +8,7 @@
  */
 #include <yara.h>
 #include <yara/notebook.h>
+#include <yara/arena.h>
 #include <yara/bitmask.h>
 #include <yara/hash.h>
 
@@ -821,6 +822,51 @@ int main(int argc, char** argv)
       fprintf(out, "{\"e\":\"GetRules\",\"cid\":%d,\"rid\":%d,\"ret\":%d", c, rr, r);
       if (r == ERROR_SUCCESS) fprintf(out, ",\"num_rules\":%u,\"num_strings\":%u", rulesets[rr]->num_rules, rulesets[rr]->num_strings);
       fputs("}\n", out);
+    }
+    else if (!strcmp(op, "audit"))
+    {
+      /* relocation audit (Arena.tla RegisteredPointersValid / AllRegistered on the real arena): every 8-byte word of every
+         buffer, at every byte offset, whose value is an address inside one of the arena's buffers must be in the relocation
+         list; every registered slot must hold NULL or an address inside the arena */
+      NEED(1);
+      int rr = slot(tok[1], MAXSLOT);
+      if (!rulesets[rr]) { fprintf(out, "{\"e\":\"RelocAudit\",\"rid\":%d,\"skipped\":\"no rules\"}\n", rr); continue; }
+      YR_ARENA* a = rulesets[rr]->arena;
+      unsigned char* reg[YR_MAX_ARENA_BUFFERS] = {0};
+      long nreloc = 0, dangling = 0, unregistered = 0, null_slots = 0, candidates = 0, outside = 0;
+      char firsts[512] = ""; char firstd[512] = "";
+      for (uint32_t b = 0; b < a->num_buffers; b++) reg[b] = (unsigned char*) calloc(a->buffers[b].used + 8, 1);
+      for (YR_RELOC* rl = a->reloc_list_head; rl != NULL; rl = rl->next)
+      {
+        nreloc++;
+        if (rl->buffer_id >= a->num_buffers || (size_t) rl->offset + 8 > a->buffers[rl->buffer_id].used) { outside++; continue; }
+        reg[rl->buffer_id][rl->offset] = 1;
+        uint64_t v; memcpy(&v, a->buffers[rl->buffer_id].data + rl->offset, 8);
+        if (v == 0) { null_slots++; continue; }
+        int inside = 0;
+        for (uint32_t k = 0; k < a->num_buffers; k++)
+          if (a->buffers[k].data && v >= (uint64_t) (uintptr_t) a->buffers[k].data && v <= (uint64_t) (uintptr_t) a->buffers[k].data + a->buffers[k].used) inside = 1;
+        if (!inside) { dangling++; if (strlen(firstd) < 400) sprintf(firstd + strlen(firstd), "%s[%u,%u]", firstd[0] ? "," : "", rl->buffer_id, rl->offset); }
+      }
+      for (uint32_t b = 0; b < a->num_buffers; b++)
+      {
+        if (a->buffers[b].used < 8) continue;
+        for (size_t off = 0; off + 8 <= a->buffers[b].used; off++)
+        {
+          uint64_t v; memcpy(&v, a->buffers[b].data + off, 8);
+          if (v < 4096) continue;
+          for (uint32_t k = 0; k < a->num_buffers; k++)
+            if (a->buffers[k].data && v >= (uint64_t) (uintptr_t) a->buffers[k].data && v < (uint64_t) (uintptr_t) a->buffers[k].data + a->buffers[k].used)
+            {
+              candidates++;
+              if (!reg[b][off]) { unregistered++; if (strlen(firsts) < 400) sprintf(firsts + strlen(firsts), "%s[%u,%zu,%u]", firsts[0] ? "," : "", b, off, k); }
+              break;
+            }
+        }
+      }
+      for (uint32_t b = 0; b < a->num_buffers; b++) free(reg[b]);
+      fprintf(out, "{\"e\":\"RelocAudit\",\"rid\":%d,\"relocs\":%ld,\"null\":%ld,\"pointers\":%ld,\"unregistered\":%ld,\"dangling\":%ld,\"outside\":%ld,\"first_unregistered\":[%s],\"first_dangling\":[%s]}\n",
+              rr, nreloc, null_slots, candidates, unregistered, dangling, outside, firsts, firstd);
     }
     else if (!strcmp(op, "rinfo")) { NEED(1); if (rulesets[slot(tok[1], MAXSLOT)]) log_rules_info(slot(tok[1], MAXSLOT)); }
     else if (!strcmp(op, "cdestroy"))
